@@ -398,9 +398,12 @@ def fp_oracle(prog, job, out, log=print):
         out['results'].append(res)
         return out
     nf = len(F)
-    # impl score per row
-    fvals = np.stack([domains[j][mat[:, j]] for j in range(nf)], axis=1)
-    uf, inv_f = np.unique(fvals, axis=0, return_inverse=True)
+    # impl score per row: rows are grouped by their frontier columns through a packed key (1-D unique)
+    fkey = np.zeros(len(mat), dtype=np.int64)
+    for j in range(nf):
+        fkey = fkey * len(domains[j]) + mat[:, j]
+    ukeys, first_idx, inv_f = np.unique(fkey, return_index=True, return_inverse=True)
+    uf = np.stack([domains[j][mat[first_idx, j]] for j in range(nf)], axis=1)
     sc_impl = np.empty(len(uf), dtype=np.int64)
     bad_impl = []
     for k, row in enumerate(uf):
@@ -416,13 +419,15 @@ def fp_oracle(prog, job, out, log=print):
     lev = np.stack([domains[nf + j][mat[:, nf + j]].astype(np.int64) for j in range(len(digits))], axis=1)
     if e['kind'] == 'monotone':
         return oracle_monotone(ex, e, F, digits, mat, domains, lev, sc_impl, inv_f, bad_impl, res, out, rep, info, solver, log)
-    # spec score per distinct level tuple
-    ul, inv_l = np.unique(lev, axis=0, return_inverse=True)
+    # spec score per row (the exact table is indexed by the class directly)
     t1 = time.time()
-    sc_spec = spec_scores_v4(ul, workers, log)
-    log('    specification scores for %d effective classes in %.1fs' % (len(ul), time.time() - t1))
+    want = spec_scores_v4(lev, workers, log)
+    lkey = np.zeros(len(lev), dtype=np.int64)
+    for j, r in enumerate(V4_RADIX):
+        lkey = lkey * r + np.clip(lev[:, j], 0, r - 1)
+    ul = np.unique(lkey)
+    log('    specification scores for %d rows / %d effective classes in %.1fs' % (len(lev), len(ul), time.time() - t1))
     got = sc_impl[inv_f.reshape(-1)]
-    want = sc_spec[inv_l.reshape(-1)]
     mism = np.nonzero(got != want)[0]
     res['classes'] = int(len(ul))
     res['rows'] = int(len(mat))
